@@ -387,7 +387,9 @@ def rule_renames(ctx):
     if ok:
         ctx.holds('R6', 'dims setter: self.axes[i].name = newdims[i]')
     else:
-        ctx.violated('R6', fi, 'dims setter', 'renaming all dimensions must write the name of the Axis objects held in self.axes, pairing the i-th name with the i-th axis')
+        # written another way (handed over to _set_dims, zip, ...): the names every variable sees afterwards are read off the interpreted scenarios of the setter
+        from ..scenario_rule import rule_scenarios
+        rule_scenarios(ctx, 'R6', only='dimarray.dataset.Dataset.dims.setter', title='renames act on the shared Axis object (dims setter: interpreted scenarios)')
     fi = ctx.fn(DS + 'set_axis')
     ev = run(ctx, fi, bind={'inplace': T.CONST_TRUE})
     ok = False
